@@ -21,7 +21,7 @@ assert os.path.realpath(sm.__file__).startswith(os.path.realpath(REPO_SRC)), sm.
 class Real:
     """the real objects of a description"""
 
-    def __init__(self, net, pv, names=None, sym_params=None, reads=None):
+    def __init__(self, net, pv, names=None, sym_params=None, reads=None, param_wrap=None):
         """pv: numeric parameter values keyed by model token; sym_params: set of tokens to be
         replaced by the given symbols {token: symbol}."""
         self.desc = net
@@ -32,7 +32,7 @@ class Real:
             if tok in sp:
                 return sp[tok]
             if tok in pv:
-                return pv[tok]
+                return param_wrap(tok, pv[tok]) if param_wrap else pv[tok]
             # parameters of elements that are replaced before the network is used
             return {"L": 1.0, "rho_max": 180.0, "rho_crit": 33.0, "v_free": 100.0, "a": 1.8,
                     "turnrate": 1.0, "alpha": 0.1}.get(tok.split(".")[-1], 2000.0)
